@@ -76,6 +76,8 @@ def run(ctx):
             ok = g.startswith("ok ") and len(gf) == 4 and gf[1] == str(n) and gf[3] == f[5] and j == "ok"
             if g.startswith(("panic", "crash", "driver-error")) or j.startswith(("panic", "crash", "driver-error")):
                 ubad.append((u.name, l, g + " | json: " + trunc(j, 200), crash_sig("C04", mv, u, f[2], f[3], g + j)))
+            elif j.startswith("diff json-panic-after-tl2-read"):
+                ubad.append((u.name, l, g + " | json: " + trunc(j, 200), f"C04:json-writer-panics-after-tl2-read:{f[3]}"))
             elif not ok:
                 if mo is not None and mo[i] == g and g.startswith("ok ") and len(gf) == 4 and gf[1] == str(n) and not gf[3].startswith(("write", "read", "trail")):
                     # the model predicts exactly this loss: the only value the TL2 writer drops is a
